@@ -346,6 +346,28 @@ func c19TransformCase(c *Ctx, r *Rng, fam, kind string, src, dst []float64) {
 		return c19FmtG(ox) + ";" + c19FmtG(oy)
 	})
 	c.CmpF("tpxy", fmt.Sprintf("c19 tpxy %s %s %s %s", kind, c19Floats(cs), c19Floats(xs), c19Floats(ys)), goXY, c19CmpPts(tol))
+	// both overloads are "the transform": same points, same images (tolerance for a different operation order)
+	if goOut != "PANIC" && out != nil {
+		agree := goXY != "PANIC"
+		if agree {
+			halves := strings.Split(goXY, ";")
+			var gx, gy []string
+			if len(halves) == 2 {
+				gx, gy = strings.Split(halves[0], ","), strings.Split(halves[1], ",")
+			}
+			agree = len(gx) == len(xs) && len(gy) == len(ys)
+			for i := 0; agree && i < len(xs); i++ {
+				var fx, fy float64
+				fmt.Sscanf(gx[i], "%g", &fx)
+				fmt.Sscanf(gy[i], "%g", &fy)
+				ex, ey := out[2*i], out[2*i+1]
+				if c19Finite([]float64{ex, ey}) {
+					agree = math.Abs(fx-ex) <= 1e-9*math.Max(1, math.Abs(ex)) && math.Abs(fy-ey) <= 1e-9*math.Max(1, math.Abs(ey))
+				}
+			}
+		}
+		c.Oracle("tpxy", agree, "tpxy-differs-from-tp", input, "TransformPointsXY "+goXY+" vs TransformPoints "+goOut)
+	}
 	c.Note("tp:" + kind + ":" + fam)
 	if goOut == "PANIC" || out == nil {
 		c.Oracle("tp", false, "tp-panic", input, "TransformPoints panicked")
